@@ -129,6 +129,24 @@ class C19(Prop):
                 d = same_tree(m, m3, code)
                 if d:
                     fail = ('dump-eval-roundtrip', 'indent=%r: %s' % (case['indent'], d))
+            if fail is None and len(code) % 3 == 0:
+                # history on the SAME tree: a refactoring that fails (a replacement that is not a string) or is interrupted at its
+                # n-th library line; what it left behind must not show in the refactorings below
+                ls_ = []
+                l_ = m.get_first_leaf()
+                while l_ is not None and len(ls_) < 40:
+                    ls_.append(l_)
+                    l_ = l_.get_next_leaf()
+                junk = {x: '<J%d>' % i for i, x in enumerate(ls_) if i % 2 == 0}
+                if len(code) % 2:
+                    junk[ls_[-1]] = 5
+                    try:
+                        g.refactor(m, junk)
+                    except TypeError:
+                        pass
+                else:
+                    from ..common import aborted
+                    aborted(lambda: g.refactor(m, junk), 3 + len(code) % 150)
             if fail is None:
                 r = g.refactor(m, {})
                 if r != code:
